@@ -14,7 +14,7 @@ pub fn run(rep: &mut Report, thorough: bool) {
     crate::util::install_quiet_panic_hook();
     rep.rule = "targets with address-pattern regions (r--, rw-, r-x; fenced by unmapped pages) and sentinel threads; 0..16 application regions of lengths {1,2,7,8,9,4095,4096,4097,65536,1 MiB} at all alignments mod 16, ending exactly at / starting exactly after an unmapped page; crash instruction pointer at {start,+1,+127,+128,+129,mid,end-129,end-128,end-1} of an r-x pattern mapping, in a hole, or none. Oracle: every descriptor's bytes vs. the address-derived pattern and /proc/<pid>/mem; multiset inclusion of requested regions; every non-empty stack present; IP window bounds. distinct = hash(app regions, ip position, thread count); non-trivial = Ok dump with >= 1 descriptor compared".into();
     let mut rng = Rng::new(rep.seed.wrapping_mul(707_071));
-    let ntargets = if thorough { 120 } else { 8 };
+    let ntargets = if thorough { 700 } else { 8 };
     let per_target = if thorough { 24 } else { 12 };
     for _ in 0..ntargets {
         let mut b = Builder::new();
